@@ -725,3 +725,14 @@ package priority
 //@ stop blocking-ok call priority.(*Discipline).Stop: the inner discipline satisfies the stop rule itself
 //@ stoprule (*Simple).handler
 //@ stop roles ctx.Done()
+
+// ---------------------------------------------------------------- C20: ownership discipline
+//@ confine Discipline
+//@ confined inputs priorities actual strategic tactic uncrowded useful feedbackLimit interrupter
+//@ shared opts breaker graceful inputAdds inputRmvs err
+//@ entries (*Discipline).main
+//@ ctors New
+//@ confine Simple
+//@ shared opts priority breaker graceful output feedback wg err
+//@ entries (*Simple).main (*Simple).handler
+//@ ctors NewSimple
